@@ -76,6 +76,14 @@ MUTANTS += [
          edits=[(HD, "\ttmpPath := headerPath + \".tmp\"\n", "\ttmpPath := headerPath\n")]),
     dict(id="c03-gc-deletes-gcfile-first", props=["C03", "C13"], desc="freelist .gc file removed before it is processed",
          edits=[(MG, "\tfi, err := os.Stat(flPath)\n\tif err != nil {\n\t\treturn nil, fmt.Errorf(\"cannot stat freelist gc file: %w\", err)\n\t}\n", "\tfi, err := os.Stat(flPath)\n\tif err != nil {\n\t\treturn nil, fmt.Errorf(\"cannot stat freelist gc file: %w\", err)\n\t}\n\tif fi.Size() > 24 {\n\t\tos.Truncate(flPath, fi.Size()-12)\n\t}\n")]),
+    dict(id="c03-freelist-mark-is-pool-length", props=["C03"], desc="the commit's freelist mark is the pool length again (stale when another flush empties the pool in between)",
+         edits=[(FL, "\tdefer cp.poolLk.RUnlock()\n\treturn cp.putCount\n", "\tdefer cp.poolLk.RUnlock()\n\treturn cp.flushedCount + uint64(len(cp.blockPool))\n"),
+                (FL, "\tcp.flushedCount += uint64(n)\n", "\tcp.flushedCount = 0\n")]),
+    dict(id="c03-commit-flushes-whole-freelist", props=["C03"], desc="commit flushes every pending freelist block, also those freed after its index flush",
+         edits=[(ST, "\tflWork, err := s.freelist.FlushTo(freed)\n", "\t_ = freed\n\tflWork, err := s.freelist.Flush()\n")]),
+    dict(id="c03-freelist-mark-after-index-flush", props=["C03"], desc="the freelist mark is taken after the index flush instead of before the primary flush",
+         edits=[(ST, "\tfreed := s.freelist.Mark()\n", ""),
+                (ST, "\tvhook.Point(\"commit.indexFlushed\")\n\tflWork, err := s.freelist.FlushTo(freed)\n", "\tvhook.Point(\"commit.indexFlushed\")\n\tflWork, err := s.freelist.FlushTo(s.freelist.Mark())\n")]),
     # C07
     dict(id="c07-bucketpos-end-of-record", props=["C07", "C02"], desc="flushBucket records the end instead of the start of a record for file choice",
          edits=[(IDX, "\t\tOffset: localPosToBucketPos(int64(length+sizePrefixSize), idx.fileNum, idx.maxFileSize),", "\t\tOffset: localPosToBucketPos(int64(length+sizePrefixSize), idx.fileNum, idx.maxFileSize) + types.Position(int64(toWrite)/64),")]),
